@@ -5,6 +5,8 @@ CONSTANTS
   Ops = {"XOR", "XNOR", "AND", "OR", "INV"}
   FreeS = FALSE
   MaxFaults = 0
+  Deviating = FALSE
+  RangeRule = "exact"
 CONSTRAINT HighWater
 INVARIANT TwoPartyOK
 INVARIANT Secrecy
